@@ -116,6 +116,12 @@ def summarize(bi, limit=256):
                     labs = [lab for lab, tb in e["edges"].items() if tb == nxt]
                     lab = labs[0] if len(labs) == 1 else tuple(labs)
                     ps.conds.append((e["subject"], lab))
+        # `let was = table[i]; if !was { .. } was`: the returned value is the very value the path branched on
+        if ret is not None and ret[0] not in ("const", "agg"):
+            for subj, lab in ps.conds:
+                if subj == ret and lab in (True, False):
+                    ret = ("const", 1 if lab else 0)
+                    break
         ps.ret = ret
         res.append(ps)
     return res
